@@ -179,12 +179,14 @@ def main(argv=None):
 
     replay_path = None
     if new_keys:
-        os.makedirs(os.path.join(REPLAY_DIR, prop), exist_ok=True)
+        # witnesses found on another checkout (mutants, seeded changes) go to a scratch area
+        rdir = prop if os.path.realpath(env.REPO) == "/repo" else os.path.join("_scratch", prop)
+        os.makedirs(os.path.join(REPLAY_DIR, rdir), exist_ok=True)
         written = set()
         for v in m["violations"]:
             if v["key"] in new_keys and v["key"] not in written and len(written) < 12:
                 written.add(v["key"])
-                p = os.path.join(REPLAY_DIR, prop, case_hash([v["key"], v["case"]]) + ".json")
+                p = os.path.join(REPLAY_DIR, rdir, case_hash([v["key"], v["case"]]) + ".json")
                 with open(p, "w") as f:
                     json.dump({"property": prop, "key": v["key"], "detail": v["detail"],
                                "case": v["case"], "seed": seed, "tier": args.tier}, f, indent=1)
